@@ -184,6 +184,12 @@ def c19_generate(name, kw, work):
     return dict(name=name, cases=len(cases), shards=shards, wall=wall, states=st['distinct'], sample=cases[len(cases) // 2] if cases else None)
 
 
+def bad_key(msg):
+    """vector failures are "<type>/<op>", geometry failures "<query>/<handle>": one signature per operation / query"""
+    a, b = msg.split('/', 1)
+    return ('vector', b) if a in ('i', 'u', 'f', 'd', 'm') else ('geometry', a)
+
+
 def c19_exec_validate(binary, sp, ncases, work):
     trace = sp[:-4] + '.ndjson'
     with open(trace, 'w') as fo, open(sp[:-4] + '.err', 'w') as fe:
@@ -202,6 +208,16 @@ def c19_exec_validate(binary, sp, ncases, work):
     v['script'], v['trace'] = sp, trace
     if v['stat'][0] != ncases:
         raise MachineryError('validator saw %d cases, expected %d (%s)' % (v['stat'][0], ncases, sp))
+    # keep what the report needs, then drop the trace (disk): a sample and the first failing case per signature
+    v['sample'] = sample_of(trace, ncases // 2)
+    firsts = {}
+    for b in v['bads']:
+        firsts.setdefault(bad_key(b['msg']), b['n'])
+    v['bad_samples'] = {n: sample_of(trace, n) for n in set(firsts.values())}
+    os.remove(trace)
+    for f in (sp[:-4] + '.err',):
+        if os.path.exists(f) and os.path.getsize(f) == 0:
+            os.remove(f)
     return v
 
 
@@ -270,11 +286,9 @@ def run_c19(tier, seed, replay=None):
     # group failures by operation signature; one replay per signature
     groups = {}
     for r, b in bads:
-        ty, op = b['msg'].split('/', 1)
-        # geometry failures: "<query>/<handle>" ; vector failures: "<type>/<op>"
-        sig = dict(kind='geometry', op=ty) if ty not in ('i', 'u', 'f', 'd', 'm') else dict(kind='vector', op=op)
-        key = (sig['kind'], sig['op'])
-        groups.setdefault(key, dict(sig=sig, n=0, first=(r, b)))['n'] += 1
+        key = bad_key(b['msg'])
+        sig = dict(kind=key[0], op=key[1])
+        groups.setdefault(key, dict(sig=sig, n=0, first=(r, b)))['n'] += 1   # (r['bad_samples'] holds a logged case per signature)
     rc, nviol, nknown = 0, 0, 0
     for key, g in sorted(groups.items()):
         r, b = g['first']
@@ -285,14 +299,10 @@ def run_c19(tier, seed, replay=None):
             continue
         p = c19_replay_file(r['script'], b['n'], '%s %s fails on %d cases; first: %s' % (key[0], key[1], g['n'], b['msg']))
         print('VIOLATION property=C19 replay=%s' % p)
-        log('   %s/%s differs from its definition on %d logged results, e.g. case %s' % (key[0], key[1], g['n'], json.dumps(sample_of(r['trace'], b['n']))[:700]))
+        log('   %s/%s differs from its definition on %d logged results, e.g. case %s' % (key[0], key[1], g['n'], json.dumps(r['bad_samples'].get(b['n']))[:700]))
         nviol += 1
         rc = 1
-    samples = []
-    for r in results[:: max(1, len(results) // 4)][:4]:
-        s = sample_of(r['trace'], r['stat'][0] // 2)
-        if s:
-            samples.append(s)
+    samples = [r['sample'] for r in results[:: max(1, len(results) // 4)][:4] if r.get('sample')]
     cov = dict(evaluations=nchk, distinct_nontrivial=nnt, cases=ncases, results_skipped_outside_claim=nskip,
                rule=('TLC enumerates every element of the stated integer lattices (pairs of vectors, vector x scalar, single vectors '
                      'with input denominators 1 and 2, stream texts with four separators) and integer affine images of three solids; '
@@ -306,7 +316,7 @@ def run_c19(tier, seed, replay=None):
                traces_validated_against_impl=ncases, known_findings_seen=nknown,
                tolerance='float 2^-21 absolute, double 2^-40 absolute on non-representable rationals; square roots and unit '
                          'vectors through squared identities at 2^-21 .. 2^-18 relative; everything representable exactly')
-    (vlib.write_evidence if not os.environ.get('VERIF_SELFTEST') else (lambda *a: None))('C19', tier, seed, 'exploration', cov, time.time() - t0, nviol,
+    (vlib.write_evidence if not (os.environ.get('VERIF_SELFTEST') or replay) else (lambda *a: None))('C19', tier, seed, 'exploration', cov, time.time() - t0, nviol,
                         ['TLC and the CommunityModules JSON bridge are trusted',
                          'the executor\'s radix conversion of float/double results (harness/vec_exec.cc: put(double)) is trusted',
                          'NaN, infinities, subnormals, signed zeros and rounding accuracy on arbitrary reals are NOT covered: TLA+ has no floating point',
@@ -410,7 +420,7 @@ def c20_coverage_of(trace):
                 sample = dict(mesh=d['mesh'], case=d['case'], threads=d['threads'], reps=d['reps'],
                               program_prefix_thread0=[alpha[k] for k in d['progs'][0][:5]],
                               a_query=alpha[i], its_single_threaded_answer=d['seq'][i], its_answer_on_the_last_thread=d['last'][-1][0])
-    return dict(queries=len(alpha or []), concurrent_nontrivial=len(conc), runs=runs, sample=sample)
+    return dict(queries=len(alpha or []), conc=conc, mesh=sample['mesh'] if sample else None, runs=runs, sample=sample)
 
 
 def run_c20(tier, seed, replay=None):
@@ -457,9 +467,17 @@ def run_c20(tier, seed, replay=None):
                 raise MachineryError('generation covered %s, expected %s' % (sorted(alpha), MESHES[tier]))
             for m in MESHES[tier]:
                 cs = sorted(cases[m], key=lambda c: c['case'])
-                sp = os.path.join(work, 'rd-%s.txt' % m)
-                open(sp, 'w').write(c20_script(m, alpha[m], cs))
-                scripts.append(sp)
+                # a few scripts per mesh (balanced by work) so that traces are validated in parallel
+                nparts = max(1, min(4, len(cs), sum(len(p) for c in cs for p in c['progs']) // 40000))
+                parts = [[] for _ in range(nparts)]
+                loads = [0] * nparts
+                for c in sorted(cs, key=lambda c: -sum(len(p) for p in c['progs'])):
+                    i = loads.index(min(loads))
+                    parts[i].append(c); loads[i] += sum(len(p) for p in c['progs'])
+                for i, part in enumerate(parts):
+                    sp = os.path.join(work, 'rd-%s-%d.txt' % (m, i))
+                    open(sp, 'w').write(c20_script(m, alpha[m], sorted(part, key=lambda c: c['case'])))
+                    scripts.append(sp)
                 gen_info[m] = dict(queries=len(alpha[m]), cases=len(cs), threads=sorted({c['threads'] for c in cs}))
             log('C20 gen: %d meshes, %d queries, %d cases, TLC %.0fs' % (len(alpha), sum(len(a) for a in alpha.values()),
                                                                           sum(len(c) for c in cases.values()), wall))
@@ -469,8 +487,10 @@ def run_c20(tier, seed, replay=None):
             x = c20_exec(variant, sp, work)
             v = validate('OVMReadersTrace.tla', x['trace'], work, 'val-%s-%s' % (os.path.basename(sp)[:-4], variant), 'C20', heap='6g')
             x.update(val=v, script=sp, variant=variant, cov=c20_coverage_of(x['trace']))
+            if not v['bads'] and not x['tsan_reports']:
+                os.remove(x['trace'])
             return x
-        with ThreadPoolExecutor(max_workers=max(2, JOBS // 2)) as ex:
+        with ThreadPoolExecutor(max_workers=max(2, JOBS - 2)) as ex:
             runs = list(ex.map(one, [(sp, v) for sp in scripts for v in ('plain', 'tsan')]))
         mc_results = [f.result() for f in mc_futs]
     # ---- verdict
@@ -516,8 +536,11 @@ def run_c20(tier, seed, replay=None):
         (nruns, sum(x['cov']['runs'] for x in runs if x['variant'] == 'tsan'), nchk, sum(x['tsan_reports'] for x in runs),
          sum(len(x['val']['bads']) for x in runs), [(m['name'], m['states']) for m in mc_results], time.time() - t0))
     plain = [x for x in runs if x['variant'] == 'plain']
+    conc_by_mesh = {}
+    for x in plain:
+        conc_by_mesh.setdefault(x['cov']['mesh'], set()).update(x['cov']['conc'])
     cov = dict(evaluations=nchk,
-               distinct_nontrivial=sum(x['cov']['concurrent_nontrivial'] for x in plain),
+               distinct_nontrivial=sum(len(v) for v in conc_by_mesh.values()),
                rule=('TLC derives from the logged projection of every catalogue mesh the alphabet of const queries (every query with every '
                      'in-contract argument over the live entities) and per-thread programs: "rot" cases in which each of the T threads runs the '
                      'whole alphabet from a different offset, and seeded random programs. evaluations = answers compared by the trace spec '
@@ -531,7 +554,7 @@ def run_c20(tier, seed, replay=None):
                model_checking=mc_results, states=sum(m['states'] for m in mc_results if m['hazard'] == 'none'),
                transitions=sum(m['transitions'] for m in mc_results if m['hazard'] == 'none'),
                traces_validated_against_impl=nruns, drift_answers=ndrift, drift_ops=drift_ops, known_findings_seen=nknown)
-    (vlib.write_evidence if not os.environ.get('VERIF_SELFTEST') else (lambda *a: None))('C20', tier, seed, 'exploration', cov, time.time() - t0, len(seen),
+    (vlib.write_evidence if not (os.environ.get('VERIF_SELFTEST') or replay) else (lambda *a: None))('C20', tier, seed, 'exploration', cov, time.time() - t0, len(seen),
                         ['data-race freedom is OBSERVED by ThreadSanitizer (gcc libtsan) while the generated programs run; it is not derived from the specification',
                          'TLC and the CommunityModules JSON bridge are trusted; the executor\'s projection (harness/ovm_state.hh dump_state + positions + reader properties) is trusted',
                          'the interleavings that actually occur are chosen by the OS scheduler; TLC explores all interleavings of the MODEL only',
